@@ -570,7 +570,7 @@ pub fn in_toto_verify(
     verify_threshold_constraints(&layout, &link_files)?;
 
     // Reduce link files
-    let mut reduced_link_files = reduce_chain_links(link_files)?;
+    let reduced_link_files = reduce_chain_links(link_files)?;
 
     let steps = layout
         .steps
@@ -582,7 +582,12 @@ pub fn in_toto_verify(
 
     // Execute inspection commands (generates link metadata for each inspection)
     let inspection_link_files = run_all_inspections(&layout)?;
-    reduced_link_files.extend(inspection_link_files);
+    // the rules of the inspections see the links of the steps and of the
+    // inspections; the summary below is built from the steps' links only, so
+    // an inspection that bears the name of a step must not replace that
+    // step's link
+    let mut all_link_files = reduced_link_files.clone();
+    all_link_files.extend(inspection_link_files);
 
     let inspects = layout
         .inspect
@@ -591,7 +596,7 @@ pub fn in_toto_verify(
         .collect();
 
     // Verify artifact rules for inspections of layout
-    verify_all_item_rules(&inspects, &reduced_link_files)?;
+    verify_all_item_rules(&inspects, &all_link_files)?;
 
     get_summary_link(&layout, &reduced_link_files, step_name.unwrap_or(""))
 }
